@@ -64,6 +64,12 @@ func vSattr(name string) nfstypes.Sattr3 {
 	}
 	s.Size.Set_it = verifrt.Bool(name + "_size_set")
 	s.Size.Size = nfstypes.Size3(verifrt.U64(name + "_size"))
+	if verifrt.Param("timeattrs", 1) == 0 {
+		// quick tier: only the modification time may be set (one of the two symmetrical time fields)
+		s.Mtime.Set_it = nfstypes.Time_how(verifrt.U32(name + "_mtime_how"))
+		s.Mtime.Mtime.Seconds = nfstypes.Uint32(verifrt.U32(name + "_mtime_s"))
+		return s
+	}
 	s.Atime.Set_it = nfstypes.Time_how(verifrt.U32(name + "_atime_how"))
 	s.Atime.Atime.Seconds = nfstypes.Uint32(verifrt.U32(name + "_atime_s"))
 	s.Atime.Atime.Nseconds = nfstypes.Uint32(verifrt.U32(name + "_atime_ns"))
@@ -91,6 +97,10 @@ func VerifC11Setattr() {
 	w := vWorld("d")
 	f, x, ok := w.anyFh("fh")
 	a := vSattr("a")
+	if verifrt.Param("repsizes", 1) == 1 {
+		// sizes from the boundary representatives of the block map (or any size beyond it)
+		a.Size.Size = nfstypes.Size3(vOffset("size"))
+	}
 	if ip := w.boundInode(x, ok); ip != nil {
 		// bound B_blocks: a truncation frees at most bblocks blocks inline, or is large enough (>= 511
 		// blocks) to be handed to the background shrinker, which this harness does not run
